@@ -85,7 +85,7 @@ def setup(tier):
 
 
 def plan(tier):
-    n = 140 if tier == "quick" else 6000
+    n = 1000 if tier == "quick" else 70000
     return [(c, n) for c in CLASSES]
 
 
